@@ -32,13 +32,14 @@ PC_NAMES = {
 # --------------------------------------------------------------------------
 # serialise / deserialise
 # --------------------------------------------------------------------------
-def serialise(sequences):
+def serialise(sequences, in_place=False):
     """Autofill + serialise a list of Sequence descriptions (deep-copied: the
-    real function mutates its argument)."""
+    real function mutates its argument; in_place=True hands over the very objects,
+    as a caller that builds a stream from objects it was given would)."""
     from vc2_conformance.bitstream import Stream, autofill_and_serialise_stream
 
     f = BytesIO()
-    autofill_and_serialise_stream(f, Stream(sequences=copy.deepcopy(list(sequences))))
+    autofill_and_serialise_stream(f, Stream(sequences=list(sequences) if in_place else copy.deepcopy(list(sequences))))
     return f.getvalue()
 
 
